@@ -49,8 +49,8 @@ func main() {
 
 // cmdGen: debug helper — generate the corpus into a directory.
 func cmdGen(args []string) {
-	if len(args) != 1 {
-		die(2, "usage: verif gen <dir>")
+	if len(args) < 1 {
+		die(2, "usage: verif gen <dir> [random-seed]")
 	}
 	dir := args[0]
 	if err := os.MkdirAll(dir, 0o755); err != nil {
@@ -62,8 +62,14 @@ func cmdGen(args []string) {
 		die(2, "%v", err)
 	}
 	p := spec.Corpus()
+	if len(args) > 1 {
+		n, _ := strconv.ParseUint(args[1], 10, 64)
+		p = spec.RandomProgram(n, spec.RandomOpts{Conv: true})
+		pj, _ := json.MarshalIndent(p, "", " ")
+		os.WriteFile(filepath.Join(dir, "program.json"), pj, 0o644)
+	}
 	if err := p.Validate(); err != nil {
-		die(2, "corpus: %v", err)
+		die(2, "program: %v", err)
 	}
 	g, err := pipeline.Generate(bin, self, p, dir)
 	if err != nil {
